@@ -2,6 +2,7 @@
 the infinity convention shared with coxeter.py, the generator order, the
 reducedness guard of the transition loop and the lexicographic pruning."""
 import ast
+from ..norm import single_defs
 
 from ..project import AnalysisError, loc, norm_stmt
 from ..flow import dotted
@@ -171,18 +172,55 @@ def rule_ord2(ctx):
         r.note("ORD2", loc(f, f.node), "automaton",
                "no rename_generators call (not judged)")
         return
+    defs = single_defs(f.node)
+
+    def resolve(e, depth=0):
+        while isinstance(e, ast.Name) and e.id in defs and depth < 4:
+            e = defs[e.id]
+            depth += 1
+        return e
+
+    def order_source(e):
+        """The expression whose ORDER decides which letter gets which name:
+        X for X, list(X), tuple(X), dict(enumerate(X)),
+        {i: g for i, g in enumerate(X)}; None when not of these forms."""
+        e = resolve(e)
+        if isinstance(e, ast.Call) and dotted(e.func) in ("list", "tuple") \
+                and len(e.args) == 1:
+            return order_source(e.args[0])
+        if isinstance(e, ast.Call) and dotted(e.func) == "dict" \
+                and len(e.args) == 1 and isinstance(e.args[0], ast.Call) \
+                and dotted(e.args[0].func) == "enumerate" \
+                and e.args[0].args:
+            return order_source(e.args[0].args[0])
+        if isinstance(e, ast.DictComp) and len(e.generators) == 1:
+            g = e.generators[0]
+            if isinstance(g.iter, ast.Call) and dotted(g.iter.func) == \
+                    "enumerate" and g.iter.args \
+                    and isinstance(g.target, ast.Tuple) \
+                    and len(g.target.elts) == 2 \
+                    and dotted(e.key) == dotted(g.target.elts[0]) \
+                    and dotted(e.value) == dotted(g.target.elts[1]):
+                return order_source(g.iter.args[0])
+            return None
+        return e
     for c in calls:
         a = c.args[0] if c.args else next(
             (k.value for k in c.keywords), None)
         inst = "automaton:rename"
-        if a is not None and dotted(a) == "self.ordered_gens":
+        src = order_source(a) if a is not None else None
+        if src is not None and dotted(src) == "self.ordered_gens":
             r.ok("ORD2", inst, loc(f, c), dotted(c)[:80],
-                 "renamed with self.ordered_gens")
+                 "renamed in the order of self.ordered_gens")
+        elif src is None:
+            r.note("ORD2", loc(f, c), inst,
+                   f"the order of `{ast.unparse(a)[:40] if a is not None else 'nothing'}` "
+                   "is not read (not judged)")
         else:
             r.violation(
                 "ORD2", f"{f.fq}|rename", loc(f, c), dotted(c)[:120],
-                f"letters are renamed with "
-                f"`{ast.unparse(a)[:40] if a is not None else 'nothing'}` "
+                f"letters are renamed in the order of "
+                f"`{ast.unparse(src)[:50]}` "
                 "instead of `self.ordered_gens`: letter k of the automaton "
                 "is row k of the Coxeter matrix, i.e. "
                 "self.ordered_gens[k]", instance=inst)
@@ -201,9 +239,49 @@ def rule_infc(ctx):
     ife = [n for n in ast.walk(f.node) if isinstance(n, ast.IfExp)]
     inst = "generate_automaton_coxeter_matrix:infinity"
     if not ife:
-        r.note("INFC", loc(f, f.node), inst,
-               "the form is not built with a conditional expression (not "
-               "judged)")
+        # vectorised form: the infinite labels are selected by a mask,
+        # `orders[orders <op> c] = np.inf` or np.where(orders <op> c, ..)
+        masks = []
+        for n in ast.walk(f.node):
+            t = None
+            if isinstance(n, ast.Assign) and len(n.targets) == 1 \
+                    and isinstance(n.targets[0], ast.Subscript) \
+                    and isinstance(n.targets[0].slice, ast.Compare):
+                t = n.targets[0].slice
+            if isinstance(n, ast.Call) and dotted(n.func) == "np.where" \
+                    and n.args and isinstance(n.args[0], ast.Compare):
+                t = n.args[0]
+            if t is not None and len(t.ops) == 1:
+                cv = const_value(t.comparators[0])
+                if isinstance(cv, (int, float)) and not isinstance(cv, bool):
+                    masks.append((n, t, cv))
+        if not masks:
+            r.note("INFC", loc(f, f.node), inst,
+                   "the form is built neither with a conditional "
+                   "expression nor with a mask on the labels (not judged)")
+            return
+        for n, t, cv in masks:
+            op = type(t.ops[0])
+            # the set of integer labels the mask selects as infinite must be
+            # exactly {m : m <= 0}
+            selects_nonpos = (op is ast.LtE and cv == 0) or (
+                op is ast.Lt and cv == 1)
+            selects_pos = (op is ast.Gt and cv == 0) or (
+                op is ast.GtE and cv == 1)       # the finite side (np.where)
+            if selects_nonpos or selects_pos:
+                r.ok("INFC", inst, loc(f, n), ast.unparse(t)[:60],
+                     "the mask separates the labels <= 0 from the labels >= 1")
+            else:
+                r.violation(
+                    "INFC", f"{f.fq}|test", loc(f, n), ast.unparse(n)[:120],
+                    f"the infinite labels are selected by `{ast.unparse(t)}`; "
+                    "coxeter.py treats exactly the labels <= 0 as infinite "
+                    "(cartan_matrix even requires the negative spelling "
+                    "for its free parameters), so a label -1 gets "
+                    "-cos(pi / -1) = +1 here: the automaton is built for "
+                    "a different group than the representation "
+                    "([[1,3,-1],[3,1,3],[-1,3,1]]: `baba` accepted, `abc` "
+                    "rejected)", instance=inst)
         return
     for e in ife:
         t = e.test
